@@ -216,7 +216,7 @@ func (in *Interp) callFn(caller *frame, fn *ssa.Function, args []Val) Val {
 		return nil
 	}
 	if m := in.W.lookupModel(fn); m != nil {
-		if in.preemptBudget > 0 && strings.Contains(fn.String(), "sync/atomic") {
+		if in.preemptBudget > 0 && (strings.Contains(fn.String(), "sync/atomic") || strings.HasSuffix(fn.String(), "Mutex).Lock") || strings.HasSuffix(fn.String(), "Mutex).RLock")) {
 			in.preemptPoint()
 		}
 		in.modelsUsed[fn.String()]++
